@@ -134,6 +134,9 @@ where
     /// [2]: [crate::thread_local_arc]
     #[must_use]
     pub fn get(&self) -> T {
+        #[cfg(folo_verif)]
+        crate::verif::point("static.local");
+
         if let Some(instance) = self.new_from_local_registry() {
             return instance;
         }
@@ -141,6 +144,11 @@ where
         // TODO: This global registry step feels too smeared out.
         // Can we draw it together into one step under one lock?
         self.try_initialize_global_registry(self.first_instance_provider);
+
+        #[cfg(folo_verif)]
+        crate::verif::block_until("static.rlock", &|| {
+            crate::verif::lock_is_free(GLOBAL_REGISTRY.try_read())
+        });
 
         let family = self
             .get_family_global()
@@ -188,6 +196,11 @@ where
         // We do not today make use of our right to create a "first" instance of `T` even when
         // we do not need it. This is a potential future optimization if it proves valuable.
 
+        #[cfg(folo_verif)]
+        crate::verif::block_until("static.wlock", &|| {
+            crate::verif::lock_is_free(GLOBAL_REGISTRY.try_write())
+        });
+
         let mut global_registry = GLOBAL_REGISTRY.write().expect(ERR_POISONED_LOCK);
 
         // TODO: We are repeatedly acquiring the family key here and in sibling functions.
@@ -200,7 +213,14 @@ where
             hash_map::Entry::Vacant(entry) => {
                 // TODO: We create an instance here, only to immediately transform it back to
                 // a family. Can we skip the middle step and just create a family directly?
+                #[cfg(folo_verif)]
+                crate::verif::point("static.init");
+
                 let first_instance = first_instance_provider();
+
+                #[cfg(folo_verif)]
+                crate::verif::point("static.insert");
+
                 entry.insert(Box::new(first_instance.family()));
             }
         }
